@@ -1,5 +1,6 @@
 import SageoptModel.Drv.Util
 import SageoptModel.Model.Sig
+import SageoptModel.Generated.SigConsts
 open Lean Sageopt.Drv Sageopt.Sig
 
 namespace Sageopt.Drv.Sig
@@ -22,7 +23,7 @@ def chk (poly : Bool) (f : SigT Rat) : M Val :=
 
 def asExp (j : Json) : M Exp := asRatList j
 
-def tol : Rat := 1 / 100000000
+def tol : Rat := Sageopt.Generated.SigConsts.eqTol   -- regenerated from the source
 
 partial def eval (j : Json) : M Val := do
   let k ← getStr j "k"
